@@ -97,6 +97,26 @@ class C06(Prop):
             else:
                 g2["coordinates"] = [a + w, a + w + Fraction(rng.randint(0, 8), 4)]
             out.append({"kind": "touching", "g1": g1, "g2": g2, "tb": Fraction(1, 8), "fb": Fraction(4), "d": Fraction(3, 4), "defaults": False})
+        # tiny extents: unions far below any "reasonable" tolerance are still unions (all values dyadic, so exact)
+        for _ in range(40 if tier == "quick" else 800):
+            e = Fraction(1, 2 ** rng.randint(28, 40))
+            a = Fraction(rng.randint(0, 8))
+            k = rng.choice([1, 2, 3, 4])
+            typ = rng.choice(["TimeInterval", "BoundingBox", "TimeStamp"])
+            if typ == "TimeInterval":
+                g1 = {"type": typ, "coordinates": [a, a + e]}
+                g2 = {"type": typ, "coordinates": [a, a + k * e]}
+                tb = Fraction(0) if rng.random() < 0.5 else e / 4
+            elif typ == "BoundingBox":
+                f = Fraction(1, 2 ** rng.randint(8, 14))
+                g1 = {"type": typ, "coordinates": [a, Fraction(1000), a + e, Fraction(1000) + f]}
+                g2 = {"type": typ, "coordinates": [a, Fraction(1000), a + k * e, Fraction(1000) + f]}
+                tb = Fraction(0)
+            else:
+                g1 = {"type": typ, "coordinates": a}
+                g2 = {"type": typ, "coordinates": a + (e if k > 2 else 0)}
+                tb = e * k
+            out.append({"kind": "tiny", "g1": g1, "g2": g2, "tb": tb, "fb": Fraction(0) if typ != "BoundingBox" else Fraction(0), "d": Fraction(3, 4), "defaults": False})
         return out
 
     # ------------------------------------------------------------------ implementation
